@@ -2,7 +2,7 @@ import SwayVerif.Model.IrText
 import SwayVerif.Driver.Util
 /-!
 Driver for C05 (see `harness/src/bin/sv_c05.rs` for the line formats).
-  const <top|nested> <const tokens> ;; <hex printed | noprint> <ok <const tokens> | err | verr | panic>
+  const <top|nested> <const tokens> ;; <hex printed | noprint> <ok <const tokens> | err | verr | verr0 | panic>
   ty <ty tokens> ;; <hex printed> <ok <ty tokens> | err | verr | panic>
   str <hex bytes> ;; <hex printed literal> <ok <hex bytes> | err | panic>
   module <id> <stage> ;; reparse=… verify=… fixpoint=… rawsame=… [diff=…] bytecode=… kind=… lines=…
@@ -144,13 +144,18 @@ def answer (line : String) : String :=
       let ires := " ".intercalate res
       -- `verr`: the real `parse` ran the verifier on the wrapper module and it rejected the constant's
       -- shape (the kernel model stops before verification): comparable only as "the text parsed".
-      let parseAgree := if ires = "verr" then (match mparse with | .ok _ => true | _ => false) else mres == ires
+      -- `verr0`: the module built by the harness was not valid IR to begin with (random shape the verifier
+      -- rejects): only "the text parsed" is comparable. `verr`: the original verified, the re-parsed module
+      -- does not — the real parser produced a DIFFERENT constant (the kernel model stops before verification,
+      -- so this can only be compared as a failure of the round trip).
+      let verrAny := ires = "verr" || ires = "verr0"
+      let parseAgree := if verrAny then (match mparse with | .ok _ => true | _ => false) else mres == ires
       let impl : PR Const := match res with
         | "ok" :: r => (match constOfToks r with | some (c', []) => .ok c' | _ => .err)
         | ["panic"] => .panic
         | _ => .err
       let dom := if top then printableTop cn else printable cn
-      let prop := if ires = "verr" then true else propConst top cn impl
+      let prop := if ires = "verr0" then true else propConst top cn impl
       s!"{mres} agree={b01 (printAgree && parseAgree)} prop={b01 prop} printable={b01 dom} pos={pos} res={res.headD "?"} pa={b01 printAgree}"
     | _, _ => "bad-const agree=0 prop=0"
   | "ty" :: toks =>
